@@ -173,6 +173,17 @@ def check(uid, tier, seed=0, only=None, keep=False):
         if model_limit:
             undecided.append('%s: model limit reached: %s' % (p.id, model_limit[0]['description']))
             continue
+        # pointer validity of the INPUTS is a type invariant the harness has to supply (a back pointer d->q, a member object that
+        # always exists).  A change that starts to use such a field of an input the harness left unconstrained produces
+        # "dereference failure: pointer NULL/invalid in self->d->q" -- that means "needs a stated input invariant", not "property
+        # violated", and every other result of that run is computed from reads through that pointer.  Undecided, unless memory
+        # safety is the property itself (C02) or the unit says so.
+        ptr_fail = [o for o in failed if re.search(r'\.pointer_dereference\.\d+$', o['name'] or '')
+                    and re.search(r'pointer (NULL|invalid|uninitialized) in ', o.get('description') or '')]
+        if ptr_fail and not (unit.get('pointer_checks_are_property') or uid in ('C02',)) and not getattr(p, 'finding', None):
+            undecided.append('%s: %s (%s): validity of a pointer reached from the inputs is not part of the stated input invariant of this unit; not a verdict'
+                             % (p.id, ptr_fail[0]['name'], (ptr_fail[0].get('description') or '')[:120]))
+            continue
         # only proof scaffolding failed (loop invariants / variants / loop frames) and no postcondition: the loop contracts may
         # simply not fit a restructured loop any more.  A bounded search for a postcondition counterexample decides what is
         # reported: found -> VIOLATION (named postcondition); not found -> UNDECIDED, not an alarm.
